@@ -9,9 +9,11 @@
 
    The model is of the code with fixes/C09-light-fade-cancel-and-color-below.patch applied; the
    two _refuted theorems show that the code as found violates the property (stale fade task,
-   wrong fade start colour).  Satisfiability Examples are in Lemmas.v, named ex_... *)
+   wrong fade start colour).  The batch light system is modelled WITH
+   fixes/C09-batch-light-dirty-while-sending.patch; batch_update_lost_refuted is the code as found.
+   Satisfiability Examples are in Lemmas.v / Compose.v / BatchLemmas.v, named ex_... *)
 From Common Require Import Prelude.
-From C09 Require Import Model Lemmas.
+From C09 Require Import Batch Model Lemmas BatchLemmas Compose.
 Open Scope Z_scope.
 
 (* the stack is kept strictly sorted by (priority, key), descending, by every operation of every
@@ -154,3 +156,114 @@ Theorem hw_corrected_at_rest_partial :
     gam f4 (hw_target l) = gam f4 (col (stack l) now).
 Proof. exact hw_corrected_at_rest_l. Qed.
 Print Assumptions hw_corrected_at_rest_partial.
+
+(* ------------------------------------------------------------------------------------------ *)
+(* complete runs: stack, delays, _schedule_update, correction, channel mapping, fade channel /
+   VirtualLight composed.
+
+   FULL STATEMENT (false of the code, known finding brightness-change-not-propagated): for every
+   run, whenever no fade is in progress every hardware channel shows the logical colour corrected
+   with the CURRENT brightness factor.
+   Proved: the same with the factor that was in effect when the light's last command was sent
+   ([cfac]), for every kind of light (RGB, white, RGBW duck_rgb / white_only / min_rgb, colour
+   profile, software fade, direct fade), every history of ticks (commands at any instants relative
+   to running fades, delays firing at their own instants), every lookup table. *)
+Theorem run_hw_equals_logical_at_rest_partial :
+  forall kind tab tks, ticks_ok 0 tks ->
+    let s := run_state kind tab sinit tks in
+    let now := end_time 0 tks in
+    rest (stack (ls s)) now = true -> ch s = None ->
+    match lcmd s with
+    | Some _ => hw_now kind s now =
+                scaled (chan_map kind (corr (cfac s) (kind_tab kind tab) (col (stack (ls s)) now)))
+    | None => col (stack (ls s)) now = off /\ hw_now kind s now = map (fun _ => 0) (chan_map kind off)
+    end.
+Proof. exact hw_equals_logical_run_l. Qed.
+Print Assumptions run_hw_equals_logical_at_rest_partial.
+
+(* and the full statement when the brightness factor does not change during the run *)
+Theorem run_hw_equals_logical_at_rest_constant_brightness :
+  forall kind tab tks f, ticks_ok 0 tks -> facs_all f tks ->
+    let s := run_state kind tab sinit tks in
+    let now := end_time 0 tks in
+    rest (stack (ls s)) now = true -> ch s = None -> lcmd s <> None ->
+    hw_now kind s now = scaled (chan_map kind (corr f (kind_tab kind tab) (col (stack (ls s)) now))).
+Proof. exact hw_equals_logical_run_const_l. Qed.
+Print Assumptions run_hw_equals_logical_at_rest_constant_brightness.
+
+(* the invariant behind it holds after every tick of every run *)
+Theorem run_invariant :
+  forall kind tab tks s now0, J kind tab s now0 -> 0 <= now0 -> ticks_ok now0 tks ->
+    J kind tab (run_state kind tab s tks) (end_time now0 tks) /\ 0 <= end_time now0 tks.
+Proof. exact run_state_J. Qed.
+Print Assumptions run_invariant.
+
+(* RGB / RGBW channel mappings (all three styles) lose nothing *)
+Theorem rgbw_channels_reconstruct_colour :
+  forall kind c, kind = 0 \/ kind = 2 \/ kind = 6 \/ kind = 7 \/ kind = 8 -> recon kind (chan_map kind c) = c.
+Proof. exact recon_chan_map_l. Qed.
+Print Assumptions rgbw_channels_reconstruct_colour.
+
+(* get_color() is _get_color_and_fade with max_fade_ms = 0 *)
+Theorem get_color_is_color_and_fade_zero : forall st now, fst (fst (cfade st 0 now)) = col st now.
+Proof. exact cfade_zero_is_col_l. Qed.
+Print Assumptions get_color_is_color_and_fade_zero.
+
+(* _get_color_and_fade(stack, max_fade_ms) on a running opaque fade: the colour returned is the logical
+   colour at the end of the returned fade time, which never exceeds max_fade_ms; done = the entry's
+   own colour.
+   color_and_fade_future_partial: for a fade-OUT above a longer fade the code returns the lower
+   fade's final colour with the fade-out's remaining time ("might be slightly inaccurate" in the
+   source); not claimed. *)
+Theorem color_and_fade_future_partial :
+  forall e r c m now, c1 e = Some c -> t1 e <> 0 -> now < t1 e -> t0 e < t1 e -> 0 <= m ->
+    let '(cl, f, d) := cfade (e :: r) m now in
+    0 <= f <= m /\ cl = col (e :: r) (now + f) /\ (d = true -> cl = c).
+Proof. exact cfade_opaque_l. Qed.
+Print Assumptions color_and_fade_future_partial.
+
+(* ------------------------------------------------------------------------------------------ *)
+(* the batch light system (with the fix), for every history of set_fade calls, scheduler iterations,
+   sender wake-ups and callback returns in any interleaving, any max_fade_ms / poll time / batch size *)
+
+(* at rest (nothing dirty, nothing scheduled, the sender not inside a callback) the last brightness
+   handed to the callback for every light is the target of its last set_fade *)
+Theorem batch_hw_equals_target_at_rest :
+  forall c h, fixedc c = true ->
+    let S := brun c binit h in
+    brest S -> forall i, hw S i = qz (f_tb (fades S i)).
+Proof. exact batch_hw_at_rest_l. Qed.
+Print Assumptions batch_hw_equals_target_at_rest.
+
+(* no update is ever lost: at every moment every light is dirty, scheduled, in the hands of the sender,
+   or the hardware has its target - also when it is marked dirty while a batch is being sent *)
+Theorem batch_no_update_lost :
+  forall c h i, fixedc c = true -> accounted (brun c binit h) i.
+Proof. exact batch_no_update_lost_l. Qed.
+Print Assumptions batch_no_update_lost.
+
+(* and the sender's wake-up is not lost: dirty lights imply the event is set *)
+Theorem batch_dirty_wakes_sender :
+  forall c h, fixedc c = true -> let S := brun c binit h in dirty S <> [] -> dev S = true.
+Proof. exact batch_dirty_wakes_sender_l. Qed.
+Print Assumptions batch_dirty_wakes_sender.
+
+(* nor the scheduler's: an entry of the schedule that is due makes the scheduler task runnable (its event is
+   set or its timeout is over) - a fade in max_fade_ms steps cannot get stuck *)
+Theorem batch_due_entry_wakes_scheduler :
+  forall c h e now, let S := brun c binit h in In e (sched S) -> fst e <= now -> sched_enabled S now = true.
+Proof. exact batch_due_entry_wakes_scheduler_l. Qed.
+Print Assumptions batch_due_entry_wakes_scheduler.
+
+(* a light whose brightness the hardware already has is not sent again *)
+Theorem batch_unchanged_light_not_resent :
+  forall c S ct i b t, blast S i = Some b -> fst b <> 0 -> lstat S i = Some (b, t) -> t < ct ->
+    pgroup c S ct [] None [i] = (S, GDone).
+Proof. exact unchanged_light_not_resent_l. Qed.
+Print Assumptions batch_unchanged_light_not_resent.
+
+(* the code as found: a light that gets a new colour while the callback is awaited is never sent *)
+Theorem batch_update_lost_refuted :
+  exists h, let S := brun c_orig binit h in brest S /\ hw S 4 = qz 0 /\ f_tb (fades S 4) = 178.
+Proof. exact batch_update_lost_refuted_l. Qed.
+Print Assumptions batch_update_lost_refuted.
